@@ -11,6 +11,8 @@ import io
 import os
 import tokenize
 
+from hypothesis import strategies as st
+
 from vlib import core, fsmodel, projgen, runner
 from props import c02_occurrences as c02
 
@@ -30,11 +32,54 @@ ASSUMPTIONS = [
 BUDGET = {"quick": (400, 240), "thorough": (8000, 2700)}
 
 
+@st.composite
+def star_scenarios(draw):
+    """shapes G-PROJ does not produce: several `from m import *` whose modules export the same names (the LAST import wins in
+    Python), optionally shadowed by a local definition.  Oracle: behaviour only (rename every definition and every use to a
+    fresh name; the program must print the same)."""
+    names = ["render", "width", "Kind"]
+    mods = ["s1", "s2", "s3"][: draw(st.integers(2, 3))]
+    files = {}
+    for k, m in enumerate(mods):
+        text = ""
+        for n in names:
+            if draw(st.integers(0, 3)) > 0:
+                if n == "render":
+                    text += "def render(v):\n    return '%s:' + str(v)\n" % m
+                elif n == "width":
+                    text += "width = %d\n" % (10 * (k + 1))
+                else:
+                    text += "class Kind:\n    tag = %d\n" % (k + 1)
+        files[m + ".py"] = text or "other = 0\n"
+    order = draw(st.permutations(mods))
+    use = "".join("from %s import *\n" % m for m in order)
+    shadow = draw(st.sampled_from([None, None, "render", "width"]))
+    if shadow == "render":
+        use += "def render(v):\n    return 'local:' + str(v)\n"
+    elif shadow == "width":
+        use += "width = 7\n"
+    defined = {n for m in mods for n in names if ("def %s" % n in files[m + ".py"] or "%s = " % n in files[m + ".py"] or "class %s" % n in files[m + ".py"])} | ({shadow} if shadow else set())
+    body = []
+    if "render" in defined:
+        body.append("print(render(1))")
+    if "width" in defined:
+        body.append("print(width + 1)")
+    if "Kind" in defined:
+        body.append("print(Kind.tag, Kind().tag)")
+    use += "\n".join(body) + "\n"
+    files["use.py"] = use
+    files["main.py"] = "import use\n" + "".join("import %s\n" % m for m in mods)
+    return {"scenario": "star_imports", "files": files, "entry": "main.py", "names": sorted(defined)}
+
+
 def strategy(tier):
-    return projgen.projects()
+    return st.one_of(projgen.projects(), projgen.projects(), projgen.projects(), projgen.projects(), projgen.projects(), projgen.projects(), projgen.projects(), star_scenarios())
 
 
-describe = c02.describe
+def describe(case):
+    if case.get("scenario"):
+        return {"scenario": case["scenario"], "files": case["files"]}
+    return c02.describe(case)
 
 
 def toks(src):
@@ -89,10 +134,65 @@ def map_path(p, moves):
     return p
 
 
+def _evaluate_scenario(case, env):
+    """behavioural oracle over every identifier occurrence of the scenario's names"""
+    import re
+
+    from rope.base import exceptions as rex
+    from rope.base.project import Project
+    from rope.refactor.rename import Rename
+
+    out = core.Outcome()
+    files = case["files"]
+    base = runner.run(files, case["entry"])
+    if base[1]:
+        raise core.HarnessError("scenario does not run: %s\n%s" % (base[1], runner.LAST_TB))
+    root = core.fresh_dir("c01s")
+    fsmodel.write_tree(root, files)
+    project = Project(root, ropefolder=None)
+    try:
+        for path in sorted(files):
+            for name in case["names"]:
+                for m in re.finditer(r"\b%s\b" % name, files[path]):
+                    if files[path][: m.start()].rsplit("\n", 1)[-1].lstrip().startswith(("'", "#")) or "'%s" % name in files[path][max(0, m.start() - 1): m.end()]:
+                        continue
+                    sub = {"path": path, "offset": m.start(), "name": name}
+                    out.evals += 1
+                    out.labels["scenario:" + case["scenario"]] += 1
+                    try:
+                        changes = Rename(project, project.get_file(path), m.start()).get_changes(projgen.FRESH)
+                    except rex.RopeError:
+                        out.refused += 1
+                        continue
+                    except Exception as e:
+                        out.notes["crashed:%s (see C09)" % type(e).__name__] += 1
+                        continue
+                    new_files, moves = apply_changes(files, changes)
+                    bad = runner.compiles(new_files)
+                    got = runner.run(new_files, case["entry"]) if not bad else ("", "does not compile")
+                    if got != base:
+                        from props.c05_move import _show
+
+                        out.violation(
+                            "C01:scenario:%s:behaviour%s" % (case["scenario"], ":" + got[1] if got[1] else ""),
+                            "rename of %r at %s:%d: output %r/%s -> %r/%s\n%s" % (name, path, m.start(), base[0][-80:], base[1], got[0][-80:], got[1], _show(files, new_files, moves)),
+                            sub,
+                        )
+                        return out
+                    if len([p_ for p_ in files if files[p_] != new_files.get(p_)]) >= 2:
+                        out.nontrivial.add("s:%s:%d" % (path, m.start()))
+    finally:
+        project.close()
+        core.rmtree(root)
+    return out
+
+
 def evaluate(case, env):
     from rope.base import exceptions as rex
     from rope.refactor.rename import Rename
 
+    if case.get("scenario"):
+        return _evaluate_scenario(case, env)
     out = core.Outcome()
     by = c02.class_tokens(case)
     names = {}
